@@ -38,7 +38,8 @@ def _ansi_tokenize(ansi_text: str) -> Iterable[_AnsiToken]:
         sgr, osc = match.groups()
         if start > position:
             yield _AnsiToken(remove_csi(ansi_text[position:start]))
-        yield _AnsiToken("", sgr, osc)
+        # an SGR sequence without parameters ("\x1b[m") means reset, i.e. parameter 0
+        yield _AnsiToken("", "0" if sgr == "" else sgr, osc)
         position = end
     if position < len(ansi_text):
         yield _AnsiToken(remove_csi(ansi_text[position:]))
@@ -151,7 +152,9 @@ class AnsiDecoder:
                 # Translate in to semi-colon separated codes
                 # Ignore invalid codes, because we want to be lenient
                 codes = [
-                    min(255, int(_code)) for _code in sgr.split(";") if _code.isdecimal()
+                    min(255, int(_code or 0))
+                    for _code in sgr.split(";")
+                    if _code.isdecimal() or not _code
                 ]
                 iter_codes = iter(codes)
                 for code in iter_codes:
